@@ -69,3 +69,15 @@ def reuse(ctx, new_rule: str, fns, what: str, keep=None, module=None):
         o.rule = new_rule
         ctx.obligations.append(o)
     ctx.check(not bad, new_rule, f"reuse:{what}", module, None, f"{what}: {len(new)} obligations of the shared mechanism hold", f"{len(bad)} obligations fail")
+
+
+def harmless_clamp(name: str, lo: int = 0, hi: int = 250) -> str:
+    """`min(C):src` with C >= hi / `max(C):src` with C <= lo (sa/bits.py names a clamp against a constant this way) cannot change a
+    value of the field's valid range lo..hi: read through it.  Any other clamp stays in the name and fails the comparison."""
+    import re
+
+    mm = re.match(r"(min|max)\((-?\d+)\):(.*)$", name)
+    while mm and ((mm.group(1) == "min" and int(mm.group(2)) >= hi) or (mm.group(1) == "max" and int(mm.group(2)) <= lo)):
+        name = mm.group(3)
+        mm = re.match(r"(min|max)\((-?\d+)\):(.*)$", name)
+    return name
